@@ -66,6 +66,47 @@ MUTANTS = [
     ('c10-lock-no-finally', 'C10', 'malt/pyct/transpiler.py',
      "      with self._cache_lock:\n        # Check again under lock.",
      "      self._cache_lock.acquire()\n      if True:\n        # Check again under lock."),
+    # ---- C13 ----
+    ('c13-narrow-except', 'C13', 'malt/impl/api.py',
+     "    converted_f = _convert_actual(target_entity, program_ctx)\n    if logging.has_verbosity(2):\n      _log_callargs(converted_f, effective_args, kwargs)\n  except Exception as e:  # pylint:disable=broad-except",
+     "    converted_f = _convert_actual(target_entity, program_ctx)\n    if logging.has_verbosity(2):\n      _log_callargs(converted_f, effective_args, kwargs)\n  except (ValueError, TypeError, NotImplementedError, AttributeError, KeyError, AssertionError, SyntaxError, NameError, RuntimeError, IndexError) as e:  # pylint:disable=broad-except"),
+    ('c13-fallback-not-recorded', 'C13', 'malt/impl/api.py',
+     "    logging.warning(warning_template, f, file_bug_message, exc)\n\n  return _call_unconverted(f, args, kwargs, options)",
+     "    logging.warning(warning_template, f, file_bug_message, exc)\n\n  return _call_unconverted(f, args, kwargs, options, False)"),
+    ('c13-fallback-effective-args', 'C13', 'malt/impl/api.py',
+     "    if is_autograph_strict_conversion_mode():\n      raise\n    return _fall_back_unconverted(f, args, kwargs, options, e)\n\n  # (dime10) strip stack trace",
+     "    if is_autograph_strict_conversion_mode():\n      raise\n    return _fall_back_unconverted(f, effective_args, kwargs, options, e)\n\n  # (dime10) strip stack trace"),
+    ('c13-partial-kw-precedence', 'C13', 'malt/impl/api.py',
+     "      new_kwargs = f.keywords.copy()\n    if kwargs is not None:\n      new_kwargs.update(kwargs)",
+     "      new_kwargs = f.keywords.copy()\n    if kwargs is not None:\n      new_kwargs = dict(kwargs, **new_kwargs)"),
+    ('c13-no-artifact-check', 'C13', 'malt/impl/api.py',
+     "  if is_autograph_artifact(f):\n    logging.log(2, 'Permanently allowed: %s: AutoGraph artifact', f)\n    return _call_unconverted(f, args, kwargs, options)",
+     "  if False and is_autograph_artifact(f):\n    logging.log(2, 'Permanently allowed: %s: AutoGraph artifact', f)\n    return _call_unconverted(f, args, kwargs, options)"),
+    ('c13-no-disabled-check', 'C13', 'malt/impl/api.py',
+     "  if ag_ctx.control_status_ctx().status == ag_ctx.Status.DISABLED:",
+     "  if ag_ctx.control_status_ctx().status == ag_ctx.Status.DISABLED and options.user_requested:"),
+    ('c13-strict-ignored-in-convert', 'C13', 'malt/impl/api.py',
+     "      _log_callargs(converted_f, effective_args, kwargs)\n  except Exception as e:  # pylint:disable=broad-except\n    logging.log(1, 'Error transforming entity %s', target_entity, exc_info=True)\n    if is_autograph_strict_conversion_mode():\n      raise",
+     "      _log_callargs(converted_f, effective_args, kwargs)\n  except Exception as e:  # pylint:disable=broad-except\n    logging.log(1, 'Error transforming entity %s', target_entity, exc_info=True)\n    if is_autograph_strict_conversion_mode() and isinstance(e, errors.PyCTError):\n      raise"),
+    ('c13-allowlist-bare-prefix', 'C13', 'malt/core/config_lib.py',
+     "    return (module_name.startswith(self._prefix + '.') or\n            module_name == self._prefix)",
+     "    return module_name.startswith(self._prefix)"),
+    ('c13-empty-kwargs-dropped', 'C13', 'malt/impl/api.py',
+     "    if kwargs is not None:\n      new_kwargs.update(kwargs)\n    new_args = f.args + args",
+     "    if kwargs:\n      new_kwargs.update(kwargs)\n    else:\n      new_kwargs = {} if kwargs is not None else new_kwargs\n    new_args = f.args + args"),
+    ('c13-warning-removed', 'C13', 'malt/impl/api.py',
+     "    logging.warning(warning_template, f, file_bug_message, exc)\n\n  return _call_unconverted",
+     "    logging.log(1, warning_template, f, file_bug_message, exc)\n\n  return _call_unconverted"),
+    ('c13-generator-converted', 'C13', 'malt/impl/conversion.py',
+     "  if hasattr(o, '__code__') and inspect.isgeneratorfunction(o):",
+     "  if False and hasattr(o, '__code__') and inspect.isgeneratorfunction(o):"),
+    ('c13-wrapt-converted', 'C13', 'malt/impl/conversion.py',
+     "  if (_is_known_loaded_type(o, 'wrapt', 'FunctionWrapper') or",
+     "  if (_is_known_loaded_type(o, 'wrapt', 'FunctionWrapperX') or"),
+    ('c13-internal-convert-user-code-ignored', 'C13', 'malt/impl/api.py',
+     "  if not options.internal_convert_user_code:\n    return _call_unconverted(f, args, kwargs, options)",
+     "  if not options.internal_convert_user_code and not options.recursive:\n    return _call_unconverted(f, args, kwargs, options)"),
+    ('c13-revert-f2', 'C13', None, 'git-revert', '82800c3'),
     ('c10-revert-f1', 'C10', None, 'git-revert', '5e04fcf'),
     ('c10-revert-f3', 'C10', None, 'git-revert', 'f98cffd'),
 ]
